@@ -1,7 +1,7 @@
 (* C03 - Address claiming converges to unique addresses and the lower NAME wins.  Statements: Spec/ClaimSpec.v;
    proofs: Proofs/ClaimProofsA.v .. ClaimProofsG.v. *)
 From Coq Require Import ZArith List Lia.
-From N2kV Require Import Model.PgnClass Model.NodeDefs Model.NodeRxDefs Model.NetDefs Spec.ClaimSpec Proofs.ClaimProofsA Proofs.ClaimProofsB Proofs.ClaimProofsC Proofs.ClaimProofsD Proofs.ClaimProofsE Proofs.ClaimProofsF Proofs.ClaimProofsG Proofs.ClaimProofsH.
+From N2kV Require Import Model.PgnClass Model.NodeDefs Model.NodeRxDefs Model.NetDefs Spec.ClaimSpec Proofs.ClaimProofsA Proofs.ClaimProofsB Proofs.ClaimProofsC Proofs.ClaimProofsD Proofs.ClaimProofsE Proofs.ClaimProofsF Proofs.ClaimProofsG Proofs.ClaimProofsH Proofs.ClaimProofsI Proofs.ClaimProofsJ.
 Import ListNotations.
 Local Open Scope Z_scope.
 
@@ -62,6 +62,21 @@ Print Assumptions C03_library_ends_unique.
 Theorem C03_claim_frame_dispatch : claim_frame_dispatch_stmt.  Proof. exact claim_frame_dispatch. Qed.
 Print Assumptions C03_claim_frame_dispatch.
 
+(* nothing else on the ParseMessages / SendMsg path writes an address or arms a claim timer (group functions: under the contract) *)
+Theorem C03_d_src_frame : d_src_frame_stmt.  Proof. exact d_src_frame. Qed.
+Print Assumptions C03_d_src_frame.
+Theorem C03_gf_none_keeps_addr : gf_none_keeps_addr_stmt.  Proof. exact gf_none_keeps_addr. Qed.
+Print Assumptions C03_gf_none_keeps_addr.
+(* queues of claim frames through the receive loop and ParseMessages; one step of the model network; R1/R3 at the level of frames *)
+Theorem C03_rx_loop_claims : rx_loop_claims_stmt.  Proof. exact rx_loop_claims. Qed.
+Print Assumptions C03_rx_loop_claims.
+Theorem C03_poll_claims : poll_claims_stmt.  Proof. exact poll_claims. Qed.
+Print Assumptions C03_poll_claims.
+Theorem C03_net_step_claim_partial : net_step_claim_partial_stmt.  Proof. exact net_step_claim_partial. Qed.
+Print Assumptions C03_net_step_claim_partial.
+Theorem C03_poll_arbitration_partial : poll_arbitration_partial_stmt.  Proof. exact poll_arbitration_partial. Qed.
+Print Assumptions C03_poll_arbitration_partial.
+
 (* non-vacuity: the hypotheses of the generic theorems are satisfiable and runs to quiescence exist (two nodes contending for 30:
    the lower NAME keeps it, the other ends without address); the premises of lib_R1..R5 are met by a reachable node of the model *)
 Example C03_generic_nonvacuous : node_hyps Z 2 toy_ndev toy_addr toy_name toy_good toy_react toy_spont toy_allowed /\
@@ -85,3 +100,7 @@ Example C03_dispatch_nonvacuous : n_open (rn ex_rx) = 3 /\ is_active_node (rn ex
   slots_free ex_rx /\ r_q ex_rx = [claim_frame {| cx := 30; cn := 5 |}].
 Proof. exact dispatch_nonvacuous. Qed.
 Print Assumptions C03_dispatch_nonvacuous.
+Example C03_poll_arbitration_nonvacuous : lib_good ex_rx /\ rx_ready ex_rx /\ (forall i, 0 <= i < dev_count (rn ex_rx) -> has_pending ex_rx i = false) /\
+  r_q ex_rx = [claim_frame {| cx := 30; cn := 5 |}] /\ (0 < lib_ndev ex_rx)%nat /\ lib_src ex_rx 0 = 30 /\ 5 < lib_name ex_rx 0.
+Proof. exact poll_arbitration_nonvacuous. Qed.
+Print Assumptions C03_poll_arbitration_nonvacuous.
